@@ -2,8 +2,10 @@ package main
 
 import (
 	"fmt"
+	"regexp"
 	"strconv"
 	"strings"
+	"sync"
 
 	"sigs.k8s.io/kustomize/kyaml/utils"
 	kyaml "sigs.k8s.io/kustomize/kyaml/yaml"
@@ -1024,13 +1026,92 @@ func hasDupKeysTop14(y *kyaml.Node) bool {
 
 // lawPM14: lookup_pm_agree on the implementation: for a path of plain field names, Lookup and PathMatcher (no Create)
 // find the same node, or both nothing, or both fail.
-func lawPM14(s sink, c case14, d *docCtx14) {
-	for _, p := range c.Path {
-		if !plainPart14(p) {
-			return
-		}
+// comm14 = MatchAgreeProofs.comm: plain names, indices in range (never on a null node), selectors [k=v] on a field
+// whose regular expression is faithful to string equality on the list at hand and which at most one element answers to
+var reCache14 sync.Map // expression -> *regexp.Regexp (nil: does not compile)
+
+func comm14(path []string, n *kyaml.Node) bool {
+	if len(path) == 0 {
+		return true
 	}
-	s.Count("law_domain", "lookup-pathmatcher-agree")
+	p, rest := path[0], path[1:]
+	if p != strings.TrimSpace(p) || p == "" {
+		return false
+	}
+	pt := classify14(p)
+	switch pt.kind {
+	case pkKey:
+		if n.Kind == kyaml.MappingNode {
+			for i := 0; i+1 < len(n.Content); i += 2 {
+				if n.Content[i].Value == p {
+					return comm14(rest, n.Content[i+1])
+				}
+			}
+		}
+		return true
+	case pkIdx:
+		if n.Kind == kyaml.SequenceNode {
+			return pt.idx < len(n.Content) && comm14(rest, n.Content[pt.idx])
+		}
+		return n.Tag != kyaml.NodeTagNull
+	case pkSel:
+		if pt.nm == "" {
+			return false
+		}
+		if n.Kind != kyaml.SequenceNode {
+			return true
+		}
+		var re *regexp.Regexp
+		if c, ok := reCache14.Load(pt.val); ok {
+			re, _ = c.(*regexp.Regexp)
+		} else {
+			re, _ = regexp.Compile(pt.val)
+			reCache14.Store(pt.val, re)
+		}
+		if re == nil {
+			return false
+		}
+		var first *kyaml.Node
+		count := 0
+		for _, e := range n.Content {
+			if e.Kind != kyaml.MappingNode {
+				continue
+			}
+			for i := 0; i+1 < len(e.Content); i += 2 {
+				if e.Content[i].Value == pt.nm {
+					x := e.Content[i+1]
+					txt, err := kyaml.NewRNode(x).String()
+					if err != nil || re.MatchString(strings.TrimSpace(txt)) != (x.Value == pt.val) {
+						return false
+					}
+					if x.Value == pt.val {
+						count++
+						if first == nil {
+							first = e
+						}
+					}
+					break
+				}
+			}
+		}
+		return count <= 1 && (first == nil || comm14(rest, first))
+	}
+	return false
+}
+
+func lawPM14(s sink, c case14, d *docCtx14) {
+	if !comm14(c.Path, d.ref.YNode()) {
+		return
+	}
+	plain := true
+	for _, p := range c.Path {
+		plain = plain && plainPart14(p)
+	}
+	if plain {
+		s.Count("law_domain", "lookup-pathmatcher-agree")
+	} else {
+		s.Count("law_domain", "lookup-pathmatcher-agree-idx-sel")
+	}
 	cls, found, _ := lookupOn(d.orig, c.Path)
 	d2 := d.ref.Copy()
 	var res *kyaml.RNode
